@@ -2,6 +2,9 @@
 C02 — Parse is total: the grammar part.
 -/
 import JPV.Lemmas.ParseModel
+import JPV.Lemmas.ActionsTotal
+import JPV.Peg.ExtDriver
+import JPV.Registry
 namespace JPV.Props
 open JPV.Peg
 
@@ -91,5 +94,66 @@ theorem C02_panic_only_from_exec (env : Env) (ext : Ext) (cfg : Cfg) (s : String
     rw [hpm] at h
     cases st <;> simp only [outcomeOfStop] at h <;> try (cases h)
     exact ⟨pos, toks, hrec, hex⟩
+
+/-- **C02_actions_total.** On every token list the regenerated grammar can produce from `expression`
+    — for every input, every amount of fuel, every environment of registered functions, every
+    behaviour of the standard-library functions (`Ext`) and both accessor modes — `Actions.exec`
+    ends normally or with one of the documented errors: it raises no Go run-time panic (no pop of an
+    empty stack, no failed type assertion, no `text[0:1]` on an empty capture, no nil root) and never
+    reaches a value the model cannot represent.
+    Proof: the tag checker of Peg/Effects.lean accepts `Gen.grammar` (`decide`), and the checker is
+    sound for `Peg.run` + `Actions.execFrom` (`check_sound`, induction on the interpreter's fuel). -/
+theorem C02_actions_total (c : Ctx) (fuel p : Nat) (toks : List Tok)
+    (hrun : run Gen.grammar fuel (ruleBody Gen.grammar "expression") c.input 0 = .ok p toks) :
+    ∀ e, exec c toks = .error e → e.documented :=
+  exec_documented c fuel p toks hrun
+
+/-- **C02_no_panic.** `parseModel` never answers `panic`: `Parse` never returns a Go run-time error. -/
+theorem C02_no_panic (env : Env) (ext : Ext) (cfg : Cfg) (s : String) (p : Panic) :
+    parseModel env ext cfg s ≠ .panic p := by
+  intro h
+  obtain ⟨pos, toks, hrec, hex⟩ := C02_panic_only_from_exec env ext cfg s p h
+  exact C02_actions_total ⟨env, ext, cfg.accessor, s.toList.toArray⟩ _ pos toks hrec _ hex
+
+/-- the outcome of `parseModel` is a tree, one of the four documented errors, or `unmodelled` -/
+theorem C02_outcome_kinds (env : Env) (ext : Ext) (cfg : Cfg) (s : String) :
+    (∃ ch, parseModel env ext cfg s = .ok ch) ∨
+    (∃ pos reason near, parseModel env ext cfg s = .syntaxErr pos reason near) ∨
+    (∃ a, parseModel env ext cfg s = .invalidArgument a) ∨
+    (∃ t, parseModel env ext cfg s = .functionNotFound t) ∨
+    (∃ f p, parseModel env ext cfg s = .notSupported f p) ∨
+    parseModel env ext cfg s = .unmodelled := by
+  cases h : parseModel env ext cfg s with
+  | ok ch => exact .inl ⟨ch, rfl⟩
+  | syntaxErr pos reason near => exact .inr (.inl ⟨pos, reason, near, rfl⟩)
+  | invalidArgument a => exact .inr (.inr (.inl ⟨a, rfl⟩))
+  | functionNotFound t => exact .inr (.inr (.inr (.inl ⟨t, rfl⟩)))
+  | notSupported f p => exact .inr (.inr (.inr (.inr (.inl ⟨f, p, rfl⟩))))
+  | panic p => exact absurd h (C02_no_panic env ext cfg s p)
+  | unmodelled => exact .inr (.inr (.inr (.inr (.inr rfl))))
+
+/-! Non-trivial instances: the recogniser succeeds with a token list on which `exec` builds a tree
+    (nested filter, aggregate in an operand), and one on which it stops with a documented error. -/
+def isOk : ParseOutcome → Bool
+  | .ok (_ :: _) => true
+  | _ => false
+def isSyntaxErr (pos : Nat) (reason near : String) : ParseOutcome → Bool
+  | .syntaxErr p r n => p == pos && r == reason && n == near
+  | _ => false
+def isNotFound (t : String) : ParseOutcome → Bool
+  | .functionNotFound u => u == t
+  | _ => false
+example : isOk (parseModel Registry.env driverExt ⟨true⟩ "$..a[?(@.b.max() > 1 && !$['c','d'])].twice()") = true := by
+  decide +kernel
+example : isSyntaxErr 4 "comparison between two current nodes is prohibited" "@.a == @.b)]"
+    (parseModel Registry.env driverExt ⟨false⟩ "$[?(@.a == @.b)]") = true := by decide +kernel
+example : isNotFound ".nope()" (parseModel Registry.env driverExt ⟨false⟩ "$.a.nope()") = true := by
+  decide +kernel
+example : run Gen.grammar 200 (ruleBody Gen.grammar "expression") "$.a".toList.toArray 0 ≠ .fail :=
+  C02_expression_never_fails _ _
+example : run Gen.grammar 200 (ruleBody Gen.grammar "expression") "$.a".toList.toArray 0 ≠ .outOfFuel := by
+  decide +kernel
+
+-- OBLIGATIONS: C02_expression_never_fails C02_fuel_mono C02_outcome_shape C02_panic_only_from_exec C02_actions_total C02_no_panic C02_outcome_kinds
 
 end JPV.Props
